@@ -86,6 +86,14 @@ M = [
     ('C16', 'oldest-binding-back', 'pgpy/pgp.py', "        return list(self.self_signatures)[-1].key_flags", "        return next(self.self_signatures).key_flags"),
     ('C16', 'subkey-preconditions-not-checked', 'pgpy/decorators.py', "                if _key is not key:", "                if False:"),
     ('C16', 'pkesk-names-primary', 'pgpy/pgp.py', "        pkesk.encrypter = bytearray(binascii.unhexlify(self.fingerprint.keyid.encode('latin-1')))", "        pkesk.encrypter = bytearray(binascii.unhexlify((self.parent or self).fingerprint.keyid.encode('latin-1')))"),
+    ('C20', 'onepass-order-not-reversed', 'pgpy/pgp.py', "            for sig in reversed(self._signatures):\n                ops = sig.make_onepass()", "            for sig in self._signatures:\n                ops = sig.make_onepass()"),
+    ('C20', 'compress-only-the-literal', 'pgpy/pgp.py', "            comp.packets = [pkt for pkt in self]\n            comp.update_hlen()\n            return comp.__bytearray__()", "            comp.packets = [pkt for pkt in self if isinstance(pkt, LiteralData)]\n            comp.update_hlen()\n            return b''.join(bytes(p.__bytearray__()) for p in self if isinstance(p, OnePassSignature)) + comp.__bytearray__() + b''.join(bytes(p.__bytearray__()) for p in self if isinstance(p, PGPSignature))"),
+    ('C20', 'onepass-hash-pubalg-swapped', 'pgpy/pgp.py', "        onepass.halg = self.hash_algorithm\n        onepass.pubalg = self.key_algorithm", "        onepass.halg = self.key_algorithm\n        onepass.pubalg = self.hash_algorithm"),
+    ('C20', 'onepass-flag-inverted-back', 'pgpy/pgp.py', "                if sig is self._signatures[0]:\n                    ops.nested = True", "                if sig is not self._signatures[-1]:\n                    ops.nested = True"),
+    ('C20', 'mdc-reemitted', 'pgpy/pgp.py', "            yield self._message\n\n            for sig in self._signatures:", "            yield self._message\n            if self._mdc is not None:\n                yield self._mdc\n\n            for sig in self._signatures:"),
+    ('C20', 'bz2-truncates-64k', 'pgpy/constants.py', "            return bz2.compress(data)", "            return bz2.compress(data[:65536])"),
+    ('C20', 'onepass-wrong-issuer', 'pgpy/pgp.py', "        onepass.signer = self.signer\n", "        onepass.signer = self.signer[::-1]\n"),
+    ('C20', 'literal-format-always-binary', 'pgpy/pgp.py', "            lit.format = format\n", "            lit.format = 'b'\n"),
 ]
 
 
